@@ -45,6 +45,9 @@ def dispatch(prop: str):
     if prop == "C15":
         from .engines import proc
         return proc.check
+    if prop == "C02":
+        from .engines import canon
+        return canon.check
     raise SystemExit(f"no check registered for {prop}")
 
 
